@@ -85,7 +85,7 @@ def metaCmd (ws : List String) : String :=
 false the error of a failing input is visible and stays visible -/
 def schedErrCmd (ws : List String) : String :=
   match sections ws with
-  | [args, tbl] =>
+  | args :: tbl :: _ =>
     match args.getLast? >>= hexDecode with
     | none => "bad-op"
     | some bs =>
